@@ -204,18 +204,19 @@ Theorem C16_cas_before_setctx_refuted :
 Proof. exact cas_before_setctx_refuted. Qed.
 Print Assumptions C16_cas_before_setctx_refuted.
 
-(* (6) close_not_blocked_by_io — Bridge.Close against forwarding writes to stalled peers (Model section F, repository shape:
-   dynamicSourceWriter releases sourceConnMu before it calls the forwarder's Write).  ANY number of writes, each to a stalled
-   peer or not, ANY number of Close calls, ANY schedule so far: no thread holds the read lock across the blocking Write, and
-   from the state reached there is a continuation in which every Close has returned — Close never waits on something held
-   across a blocking I/O call, so any fair scheduler completes it. *)
+(* (6) close_not_blocked_by_io — Bridge.Close against the copy loops (Model section F, repository shape: dynamicSourceWriter
+   releases sourceConnMu before it calls the forwarder's Write; waitForTokens waits with the bridge context).  ANY number of
+   copy steps, each possibly starved of bandwidth tokens and / or writing to a stalled peer, ANY number of Close calls (at least
+   one), ANY schedule so far: no thread holds the read lock across the blocking Write, and from the state reached there is a
+   continuation in which EVERY thread has finished — every Close has returned and the copy loops have ended, so Start
+   returns: every blocking wait of the copy loop is ended by what Close does, so any fair scheduler completes the shutdown. *)
 Theorem C16_close_completes_despite_stalled_writes :
   forall (ts : list fth) (pre : list nat),
-  forallb f_initial ts = true ->
-  let s := run _ _ (fstep false) (finit, ts) pre in
+  forallb f_initial ts = true -> existsb f_is_closer ts = true ->
+  let s := run _ _ (fstep false true) (finit, ts) pre in
   Forall f_releasing (snd s) /\
-  (exists sched, forallb (fun t => negb (f_close_pending t)) (snd (run _ _ (fstep false) s sched)) = true).
-Proof. intros ts pre H. exact (close_completes_despite_stalled_writes ts pre H). Qed.
+  (exists sched, forallb f_finished (snd (run _ _ (fstep false true) s sched)) = true).
+Proof. intros ts pre H1 H2. exact (close_completes_despite_stalled_writes ts pre H1 H2). Qed.
 Print Assumptions C16_close_completes_despite_stalled_writes.
 
 (* the read lock held across the Write (deferred RUnlock): the write to a stalled peer parks holding the lock, Close waits
@@ -223,10 +224,21 @@ Print Assumptions C16_close_completes_despite_stalled_writes.
    moves any thread again, and a Close is pending forever *)
 Theorem C16_lock_held_across_write_refuted :
   exists pre,
-    let s := run _ _ (fstep true) (finit, [ {| f_stall := true; f_pc := WLock |}; {| f_stall := false; f_pc := KLock |} ]) pre in
-    (forall sched, run _ _ (fstep true) s sched = s) /\ existsb f_close_pending (snd s) = true.
+    let s := run _ _ (fstep true true) (finit, [ {| f_stall := true; f_starved := false; f_pc := WLock |};
+                                                 {| f_stall := false; f_starved := false; f_pc := KLock |} ]) pre in
+    (forall sched, run _ _ (fstep true true) s sched = s) /\ existsb f_close_pending (snd s) = true.
 Proof. exact lock_held_across_write_refuted. Qed.
 Print Assumptions C16_lock_held_across_write_refuted.
+
+(* the token wait not tied to the bridge context (ReserveN + time.Sleep): Close runs to completion and cancels the context,
+   the starved copy step sleeps on and no schedule ever moves it: the copy loop never ends, Start never returns *)
+Theorem C16_uncancellable_token_wait_refuted :
+  exists pre,
+    let s := run _ _ (fstep false false) (finit, [ {| f_stall := false; f_starved := true; f_pc := WThrottle |};
+                                                   {| f_stall := false; f_starved := false; f_pc := KLock |} ]) pre in
+    (forall sched, run _ _ (fstep false false) s sched = s) /\ map f_pc (snd s) = [WThrottle; KDone] /\ f_cancel (fst s) = true.
+Proof. exact uncancellable_token_wait_refuted. Qed.
+Print Assumptions C16_uncancellable_token_wait_refuted.
 
 (* (7) queued_op — StreamProcessor acquireReadLock / acquireWriteLock, repository order (lock, then the closed test): for ANY
    operations and Close calls and ANY schedule, no call is ever made on the underlying reader / writer by an operation that
@@ -334,6 +346,28 @@ Theorem C16_resource_manager_dispose_all_once :
 Proof. intros ops. exact (rm_dispose_all_once ops). Qed.
 Print Assumptions C16_resource_manager_dispose_all_once.
 
+(* DisposeAll works on a snapshot (repository: the order slice is copied): one DisposeAll and ANY number of Register calls made
+   while it runs — from inside a resource's Dispose or from other goroutines — ANY schedule: when DisposeAll has finished it
+   has disposed exactly its snapshot, each entry once, in reverse order; the snapshot contains everything registered before
+   it started; no completed registration is lost (disposed by this DisposeAll, or registered afterwards). *)
+Theorem C16_dispose_all_snapshot :
+  forall (l0 regs : list nat) (sched : list nat),
+  let s := run _ _ (astep false) (ainit l0, ALoopStart :: map AReg regs) sched in
+  nth_error (snd s) 0 = Some ALoopDone ->
+  a_disposed (fst s) = rev (a_old (fst s)) /\ (exists ext, a_old (fst s) = l0 ++ ext) /\
+  (forall id, In (ARegDone id) (snd s) -> In id (a_live (fst s)) \/ In id (a_disposed (fst s))).
+Proof. intros l0 regs sched. exact (dispose_all_snapshot_all_schedules l0 regs sched). Qed.
+Print Assumptions C16_dispose_all_snapshot.
+
+(* the loop reads the manager's own backing array (rm.order = rm.order[:0]): a Register made while resource 2 is being
+   disposed overwrites the slot of resource 1, which is never disposed and registered nowhere afterwards *)
+Theorem C16_dispose_all_aliased_order_refuted :
+  exists sched,
+    let s := run _ _ (astep true) (ainit [1; 2], [ALoopStart; AReg 5]) sched in
+    snd s = [ALoopDone; ARegDone 5] /\ a_disposed (fst s) = [2] /\ a_live (fst s) = [5].
+Proof. exact dispose_all_aliased_order_refuted. Qed.
+Print Assumptions C16_dispose_all_aliased_order_refuted.
+
 (* DisposeWithTimeout (repository: result channel of capacity 1): whatever the caller, the timer and the other threads have
    done — in particular for both orders of {timeout fires, DisposeAll finishes} — once the slow resource has finished the
    helper goroutine needs two steps of its own and is gone: its send never blocks. *)
@@ -368,9 +402,9 @@ Theorem C16_nothing_left_running_partial :
   (forall sh ls h, t_gate sh = true ->
      (nth_error ls h = Some HRun \/ nth_error ls h = Some HSend \/ nth_error ls h = Some HDone) ->
      nth_error (snd (run _ _ (tstep2 true) (sh, ls) [h; h])) h = Some HDone) /\
-  (forall ts pre, forallb f_initial ts = true ->
-     exists sched, forallb (fun t => negb (f_close_pending t))
-                     (snd (run _ _ (fstep false) (run _ _ (fstep false) (finit, ts) pre) sched)) = true).
+  (forall ts pre, forallb f_initial ts = true -> existsb f_is_closer ts = true ->
+     exists sched, forallb f_finished
+                     (snd (run _ _ (fstep false true) (run _ _ (fstep false true) (finit, ts) pre) sched)) = true).
 Proof. exact nothing_left_running_model_level. Qed.
 Print Assumptions C16_nothing_left_running_partial.
 
@@ -381,7 +415,8 @@ Theorem C16_premises_satisfiable :
   forallb r_initial [CAdd [100%Z; 0%Z; 5%Z]; RLock; RLock; RLock] = true /\
   forallb p_initial [PClose; OStart; PClose; OStart; OStart] = true /\
   forallb (e_initial true) [ESetCtx; ELoad; ELoad; ESetCtx] = true /\
-  forallb f_initial [ {| f_stall := true; f_pc := WLock |}; {| f_stall := false; f_pc := WLock |}; {| f_stall := false; f_pc := KLock |} ] = true.
+  forallb f_initial [ {| f_stall := true; f_starved := false; f_pc := WLock |}; {| f_stall := false; f_starved := true; f_pc := WThrottle |};
+                      {| f_stall := false; f_starved := false; f_pc := KLock |} ] = true.
 Proof. exact (conj eq_refl (conj eq_refl (conj eq_refl (conj eq_refl (conj eq_refl eq_refl))))). Qed.
 Print Assumptions C16_premises_satisfiable.
 
